@@ -108,4 +108,16 @@ theorem itemsBlock_nodup {log : List Entry} (hs : Sorted log) : (itemsBlock log)
   have hsub : (liveItems log).Sublist log := List.filter_sublist
   exact sorted_nodup_rv (List.Pairwise.sublist hsub hs)
 
+theorem relistsAfter_of_backoff {w w' : World} (hph : w'.phase = .backoff) (ho : w'.outs = w.outs) :
+    RelistsAfter w w' := by
+  refine ⟨hph, ho, ?_, ?_⟩
+  · intro as
+    refine ⟨(run { w' with outs := [] } as).outs, run_outs w' as, ?_⟩
+    intro v
+    have h0 : FirstIsList { w' with outs := [] } := Or.inr ⟨rfl, Or.inr (Or.inl hph)⟩
+    rcases firstIsList_run h0 as with h | ⟨h, _⟩ <;> rw [h] <;> simp
+  · intro hp
+    simp [step, hph, hp, startListing, emit]
+
+
 end Kopf.C19
